@@ -21,8 +21,10 @@
     [\item] without its optional argument: a bare macro standing for
     ["\n  * "]), [abstract_items] for node lists.
 
-    Not covered by these theorems (replacement callables and %-templates with
-    macro arguments): accent macros, [\frac], [\sqrt], [\item[..]] — they are
+    Accent macros with one argument ([KAccent]) are core as well.
+
+    Not covered by these theorems (%-templates over macro arguments, the
+    optional argument of [\item]): [\frac], [\sqrt], [\item[..]] — they are
     covered by the correspondence and by the Python renderer only. *)
 From Coq Require Import NArith ZArith List Bool Arith.
 From PLV Require Import Base.PyStr Tok.Tokenizer Parse.Nodes Parse.Parser Parse.ParseWire.
@@ -40,54 +42,56 @@ Theorem C03_tree_level :
   forall (src : str) (lt : l2tctx) (cx : context) (o : opts) (items : list (option node)) (ks : list core),
   abstract_items src lt items = Some ks ->
   forall (sl : sls) (st : dstate) (p e : option nat),
-  node_text src lt cx o sl st (NList p e items) = (render o sl ks, st).
+  node_text src lt cx o sl st (NList p e items) = (render (nfc_accent lt) o sl ks, st).
 Proof. exact tree_level. Qed.
 
 (** one node *)
 Theorem C03_node_level :
   forall (src : str) (lt : l2tctx) (cx : context) (o : opts) (n : node) (k : core),
   abstract src lt n = Some k ->
-  forall (sl : sls) (st : dstate), node_text src lt cx o sl st n = (render1 o sl k, st).
+  forall (sl : sls) (st : dstate), node_text src lt cx o sl st n = (render1 (nfc_accent lt) o sl k, st).
 Proof. exact abstract_sound. Qed.
 
 (** [nodelist_to_text] of a parser result *)
 Theorem C03_l2t_nodes :
   forall src lt cx o items ks p e, abstract_items src lt items = Some ks ->
-  l2t_nodes src lt cx o (Some (NList p e items)) = (render o (o_sls o) ks, d0).
+  l2t_nodes src lt cx o (Some (NList p e items)) = (render (nfc_accent lt) o (o_sls o) ks, d0).
 Proof. exact l2t_nodes_core. Qed.
 
 (** the same in terms of the canonical embedding [embed] of core items into
     nodes; [cores_ok] = the hypotheses on the databases, item by item
     ([Render.core_ok]) *)
 Theorem C03_tree_level_embed :
-  forall src lt cx fmt_name env_name wrap_name sym_name spc_chars verb_pos o sl st p e items,
-  cores_ok src lt fmt_name env_name wrap_name sym_name spc_chars verb_pos items ->
-  node_text src lt cx o sl st (NList p e (embed_items fmt_name env_name wrap_name sym_name spc_chars verb_pos items))
-  = (render o sl items, st).
+  forall src lt cx fmt_name env_name wrap_name acc_name sym_name spc_chars verb_pos o sl st p e items,
+  cores_ok src lt fmt_name env_name wrap_name acc_name sym_name spc_chars verb_pos items ->
+  node_text src lt cx o sl st (NList p e (embed_items fmt_name env_name wrap_name acc_name sym_name spc_chars verb_pos items))
+  = (render (nfc_accent lt) o sl items, st).
 Proof. exact tree_level_embed. Qed.
 
 Theorem C03_abstract_embed :
-  forall src lt fmt_name env_name wrap_name sym_name spc_chars verb_pos k,
-  core_ok src lt fmt_name env_name wrap_name sym_name spc_chars verb_pos k ->
-  abstract src lt (embed fmt_name env_name wrap_name sym_name spc_chars verb_pos k) = Some k.
+  forall src lt fmt_name env_name wrap_name acc_name sym_name spc_chars verb_pos k,
+  core_ok src lt fmt_name env_name wrap_name acc_name sym_name spc_chars verb_pos k ->
+  abstract src lt (embed fmt_name env_name wrap_name acc_name sym_name spc_chars verb_pos k) = Some k.
 Proof. exact abstract_embed. Qed.
 
 (** the documented rules, one by one, as equations of the specification *)
-Theorem C03_rules : forall (o : opts) (sl : sls),
-  (forall c, is_blank c = false -> render1 o sl (KText c) = c)
-  /\ (forall c, is_blank c = true -> render1 o sl (KText c) = if s_blc sl then c else [])
-  /\ (forall c p, o_keep_comments o = false -> render1 o sl (KComment c p) = if s_ac sl then [] else p)
-  /\ (forall b, o_kbg o = false -> render1 o sl (KGroup b) = render o sl b)
-  /\ (forall b, render1 o sl (KTransparent b) = render o sl b)
-  /\ (forall b, render1 o sl (KEnvBody b) = render o sl b)
-  /\ (forall pre post b, render1 o sl (KEnvWrap pre post b) = pre ++ render o sl b ++ post)
-  /\ (forall r p, render1 o sl (KSymbol r p) = r) /\ (forall r, render1 o sl (KSpecials r) = r)
+Theorem C03_rules : forall (acc : N -> N -> str) (o : opts) (sl : sls),
+  (forall c, is_blank c = false -> render1 acc o sl (KText c) = c)
+  /\ (forall c, is_blank c = true -> render1 acc o sl (KText c) = if s_blc sl then c else [])
+  /\ (forall c p, o_keep_comments o = false -> render1 acc o sl (KComment c p) = if s_ac sl then [] else p)
+  /\ (forall b, o_kbg o = false -> render1 acc o sl (KGroup b) = render acc o sl b)
+  /\ (forall b, render1 acc o sl (KTransparent b) = render acc o sl b)
+  /\ (forall b, render1 acc o sl (KEnvBody b) = render acc o sl b)
+  /\ (forall pre post b, render1 acc o sl (KEnvWrap pre post b) = pre ++ render acc o sl b ++ post)
+  /\ (forall r p, render1 acc o sl (KSymbol r p) = r) /\ (forall r, render1 acc o sl (KSpecials r) = r)
+  /\ (forall comb k, render1 acc o sl (KAccent comb k)
+                     = flat_map (fun ch => acc ch comb) (py_strip (render1 acc o sl k)))
   /\ (forall dl dr v b, o_math o = MMText ->
-        render1 o sl (KMath false dl dr v b) = py_strip (render o (push_eq sl) b)
-        /\ render1 o sl (KMath true dl dr v b) = indent_block (py_strip (render o (push_eq sl) b)))
-  /\ (forall r p c k, render o sl [KSymbol r p; KText c]
-                      = r ++ (if s_bmc sl then [] else p) ++ render1 o sl (KText c)
-                      /\ (is_text k = false -> render o sl [KSymbol r p; k] = r ++ render1 o sl k)).
+        render1 acc o sl (KMath false dl dr v b) = py_strip (render acc o (push_eq sl) b)
+        /\ render1 acc o sl (KMath true dl dr v b) = indent_block (py_strip (render acc o (push_eq sl) b)))
+  /\ (forall r p c k, render acc o sl [KSymbol r p; KText c]
+                      = r ++ (if s_bmc sl then [] else p) ++ render1 acc o sl (KText c)
+                      /\ (is_text k = false -> render acc o sl [KSymbol r p; k] = r ++ render1 acc o sl k)).
 Proof. exact render_rules. Qed.
 
 (** * Compositionality
@@ -95,44 +99,44 @@ Proof. exact render_rules. Qed.
     The ONLY interaction between neighbouring items is the junction: the
     post-space of a bare symbol macro at the end of [a], emitted when [b] starts
     with text and the policy is not strict between-macro-and-chars. *)
-Theorem C03_compositional : forall (o : opts) (sl : sls) (a b : list core),
-  render o sl (a ++ b) = render o sl a ++ junction sl a b ++ render o sl b
+Theorem C03_compositional : forall (acc : N -> N -> str) (o : opts) (sl : sls) (a b : list core),
+  render acc o sl (a ++ b) = render acc o sl a ++ junction sl a b ++ render acc o sl b
   /\ (junction sl a b = [] <->
       s_bmc sl = true \/ ends_with_spaced_symbol a = false \/ starts_with_text b = false).
-Proof. intros. split; [apply render_app | apply junction_nil_iff]. Qed.
+Proof. intros acc o sl a b. split; [exact (render_app acc o sl a b) | apply (junction_nil_iff acc)]. Qed.
 
 (** hence plain concatenation exactly under that side condition *)
-Theorem C03_compositional_free : forall o sl a b,
+Theorem C03_compositional_free : forall (acc : N -> N -> str) o sl a b,
   s_bmc sl = true \/ ends_with_spaced_symbol a = false \/ starts_with_text b = false ->
-  render o sl (a ++ b) = render o sl a ++ render o sl b.
+  render acc o sl (a ++ b) = render acc o sl a ++ render acc o sl b.
 Proof. exact render_app_free. Qed.
-Theorem C03_compositional_exact : forall o sl a b,
+Theorem C03_compositional_exact : forall (acc : N -> N -> str) o sl a b,
   s_bmc sl = false -> ends_with_spaced_symbol a = true -> starts_with_text b = true ->
-  render o sl (a ++ b) <> render o sl a ++ render o sl b.
+  render acc o sl (a ++ b) <> render acc o sl a ++ render acc o sl b.
 Proof. exact render_app_not_free. Qed.
 
 (** two blocks joined by a paragraph break: NO side condition *)
-Theorem C03_compositional_par : forall o sl a b,
-  render o sl (a ++ [KPar] ++ b) = render o sl a ++ [10; 10]%N ++ render o sl b.
+Theorem C03_compositional_par : forall (acc : N -> N -> str) o sl a b,
+  render acc o sl (a ++ [KPar] ++ b) = render acc o sl a ++ [10; 10]%N ++ render acc o sl b.
 Proof. exact compositional_par. Qed.
 
 (** two blocks, the first ending with the text [t], the second starting with
     the text [u], joined by the characters [ws] (spaces, a newline): in the tree
     [t ++ ws ++ u] is ONE character node.  [text_kept sl t]: [t] is not
     whitespace-only, or the policy is strict between-latex-constructs. *)
-Theorem C03_compositional_space : forall o sl a0 t ws u b0,
+Theorem C03_compositional_space : forall (acc : N -> N -> str) o sl a0 t ws u b0,
   text_kept sl t -> text_kept sl u ->
-  render o sl (a0 ++ [KText (t ++ ws ++ u)] ++ b0)
-  = render o sl (a0 ++ [KText t]) ++ ws ++ render o sl (KText u :: b0).
+  render acc o sl (a0 ++ [KText (t ++ ws ++ u)] ++ b0)
+  = render acc o sl (a0 ++ [KText t]) ++ ws ++ render acc o sl (KText u :: b0).
 Proof. exact compositional_space. Qed.
 
 (** paragraph break with whitespace around it: the whitespace [pre] in front of
     the first newline belongs to the text before, [tail] after the last newline
     to the text after *)
-Theorem C03_compositional_par_text : forall o sl a0 t pre tail u b0,
+Theorem C03_compositional_par_text : forall (acc : N -> N -> str) o sl a0 t pre tail u b0,
   text_kept sl t -> text_kept sl u ->
-  render o sl ((a0 ++ [KText (t ++ pre)]) ++ [KPar] ++ (KText (tail ++ u) :: b0))
-  = render o sl (a0 ++ [KText t]) ++ pre ++ [10; 10]%N ++ tail ++ render o sl (KText u :: b0).
+  render acc o sl ((a0 ++ [KText (t ++ pre)]) ++ [KPar] ++ (KText (tail ++ u) :: b0))
+  = render acc o sl (a0 ++ [KText t]) ++ pre ++ [10; 10]%N ++ tail ++ render acc o sl (KText u :: b0).
 Proof. exact compositional_par_text. Qed.
 
 (** ... and therefore for the implementation model: the text of the joined tree
@@ -162,7 +166,8 @@ Proof. exact model_compositional_space. Qed.
     beta Gamma infty times ldots S ae LaTeX zzunknown cdot to are bare symbol
     macros; SPC = ~ -- --- `` '' & are replaced specials; ENV = itemize
     enumerate zzunknownenv render their body; the paragraph break is not in the
-    text table; center wraps its body in newlines; [\item] is the item
+    text table; ACC = the accent macros ' ` dieresis ^ ~ c v hat bar vec are
+    accent formatters with one braced argument; center wraps its body in newlines; [\item] is the item
     formatter and its only argument is the optional [\[..\]]. *)
 Theorem C03_default_tables_core :
   forallb (fun nm => transparent_macro lt0 nm && one_braced_arg nm) FMT = true
@@ -170,6 +175,7 @@ Theorem C03_default_tables_core :
   /\ forallb (fun ch => is_some (specials_repl lt0 ch) && is_some (get_specials_spec cx0 ch)) SPC = true
   /\ forallb (transparent_env lt0) ENV = true
   /\ assoc (lt_specials lt0) [10; 10]%N = None /\ is_some (get_specials_spec cx0 [10; 10]%N) = true
+  /\ forallb (fun nm => is_some (accent_macro lt0 nm) && one_braced_arg nm) ACC = true
   /\ wrap_env lt0 [99;101;110;116;101;114]%N = Some ([10%N], [10%N])                 (* center *)
   /\ item_macro lt0 [105;116;101;109]%N = true                                        (* \item *)
   /\ match get_macro_spec cx0 [105;116;101;109]%N with
@@ -186,15 +192,15 @@ Proof. exact default_tables_core. Qed.
     hold, the model text is the specification's for every option set, and both
     are the expected strings for concrete option sets *)
 Example C03_tree_level_nonvacuous :
-  cores_ok ex_src lt0 [116;101;120;116;98;102]%N [105;116;101;109;105;122;101]%N (fun _ _ => [99;101;110;116;101;114]%N) ex_sym ex_spc (fun _ => (0, 5)) ex_items
+  cores_ok ex_src lt0 [116;101;120;116;98;102]%N [105;116;101;109;105;122;101]%N (fun _ _ => [99;101;110;116;101;114]%N) (fun _ => [39%N]) ex_sym ex_spc (fun _ => (0, 5)) ex_items
   /\ (forall o sl st,
-        node_text ex_src lt0 cx0 o sl st (NList None None (ex_embed ex_items)) = (render o sl ex_items, st))
+        node_text ex_src lt0 cx0 o sl st (NList None None (ex_embed ex_items)) = (render (nfc_accent lt0) o sl ex_items, st))
   /\ fst (node_text ex_src lt0 cx0 (ex_opts MMText sls_macros false false) sls_macros d0
                     (NList None None (ex_embed ex_items)))
-     = [97;32;98;945;99;945;100;160;8211;32;10;32;121;10;10;113;945;32;114;32;10;32;32;32;32;117;10;32;32;32;32;118;10;10;119;10]%N
+     = [97;32;98;945;99;945;100;160;8211;32;10;32;121;10;10;113;945;32;114;32;10;32;32;32;32;117;10;32;32;32;32;118;10;10;119;10;233;243]%N
   /\ fst (node_text ex_src lt0 cx0 (ex_opts MMWithDelims sls_alltrue true true) sls_alltrue d0
                     (NList None None (ex_embed ex_items)))
-     = [97;32;98;945;99;945;100;160;8211;32;37;32;99;10;121;10;10;92;40;113;945;114;92;41;32;92;91;10;117;10;118;10;92;93;10;119;10]%N.
+     = [97;32;98;945;99;945;100;160;8211;32;37;32;99;10;121;10;10;92;40;113;945;114;92;41;32;92;91;10;117;10;118;10;92;93;10;119;10;233;243]%N.
 Proof.
   split; [exact ex_items_ok|]. split; [exact ex_tree_level|]. vm_compute. split; reflexivity.
 Qed.
@@ -206,21 +212,22 @@ Example C03_doc_end_to_end :
   | Some l => abstract_items doc lt0 l
   | None => None
   end = Some doc_core
-  /\ forall o, latex_to_text o doc false = Some (render o (o_sls o) doc_core, d0).
+  /\ forall o, latex_to_text o doc false = Some (render (nfc_accent lt0) o (o_sls o) doc_core, d0).
 Proof. split; [exact doc_parses_to_core | exact doc_end_to_end]. Qed.
 
 (** the junction matters exactly where stated; the space join's hypotheses are satisfiable *)
 Example C03_compositional_nonvacuous :
   let o := ex_opts MMText sls_bos false false in
+  let acc := nfc_accent lt0 in
   let a := [KText [97]%N; KSymbol [945%N] [32%N]] in
   let b := [KText [120]%N] in
-  render o sls_bos (a ++ b) = [97; 945; 32; 120]%N
-  /\ render o sls_bos a ++ render o sls_bos b = [97; 945; 120]%N
-  /\ render o sls_macros (a ++ b) = render o sls_macros a ++ render o sls_macros b
+  render acc o sls_bos (a ++ b) = [97; 945; 32; 120]%N
+  /\ render acc o sls_bos a ++ render acc o sls_bos b = [97; 945; 120]%N
+  /\ render acc o sls_macros (a ++ b) = render acc o sls_macros a ++ render acc o sls_macros b
   /\ text_kept sls_bos [97; 98]%N /\ text_kept sls_macros [32]%N /\ ~ text_kept sls_bos [32]%N
-  /\ render o sls_bos ([KSymbol [945%N] [32%N]] ++ [KText ([97; 98] ++ [32; 32] ++ [99])] ++ [KSpecials [160%N]])%N
-     = render o sls_bos ([KSymbol [945%N] [32%N]] ++ [KText [97; 98]%N]) ++ [32; 32]%N
-       ++ render o sls_bos (KText [99]%N :: [KSpecials [160%N]]).
+  /\ render acc o sls_bos ([KSymbol [945%N] [32%N]] ++ [KText ([97; 98] ++ [32; 32] ++ [99])] ++ [KSpecials [160%N]])%N
+     = render acc o sls_bos ([KSymbol [945%N] [32%N]] ++ [KText [97; 98]%N]) ++ [32; 32]%N
+       ++ render acc o sls_bos (KText [99]%N :: [KSpecials [160%N]]).
 Proof.
   vm_compute. repeat split; try reflexivity.
   - right; reflexivity.
